@@ -6,6 +6,7 @@ import brv
 from engine import Spec, Stream
 from monitors import sync as mon
 from monitors import node as mon_node
+from monitors import blkdl as mon_dl
 
 
 def gen(seed, tier, out):
@@ -18,6 +19,12 @@ def gen(seed, tier, out):
                 f.write(p.read_text())
 
 
+def gen_mgr(seed, tier, out):
+    n = 60 if tier == "quick" else 1200
+    with open(out, "w") as f:
+        subprocess.run([str(brv.BIN / "blkmgr"), "gen", str(seed + 29), str(n), tier], stdout=f, check=True)
+
+
 def gen_node(seed, tier, out):
     n = 40 if tier == "quick" else 800
     with open(out, "w") as f:
@@ -27,14 +34,17 @@ def gen_node(seed, tier, out):
 SPEC = Spec(
     prop="C05",
     title="Best-chain blocks from the start height are processed in order, each once",
-    go_bins=["sync", "node"],
-    lean_targets=["BRV.Props.C05", "drv_sync", "drv_node"],
+    go_bins=["sync", "node", "blkmgr"],
+    lean_targets=["BRV.Props.C05", "drv_sync", "drv_node", "drv_blkmgr"],
     props_files=[brv.LEAN / "BRV/Props/C05.lean"],
     streams=[Stream("sync", "sync", "drv_sync", gen, monitor=mon.monitor, nontrivial=mon.nontrivial, timeout=900),
              # the node side of an abandoned request (C16's node stream, a smaller sample): after a cancel, a late or
              # missing block, a peer drop, the node must be free for the next request - a node that stays busy stalls
              # every later round that depends on it
-             Stream("nodeblk", "node", "drv_node", gen_node, monitor=mon_node.monitor_c16, nontrivial=mon_node.nontrivial_c16, timeout=900)],
+             Stream("nodeblk", "node", "drv_node", gen_node, monitor=mon_node.monitor_c16, nontrivial=mon_node.nontrivial_c16, timeout=900),
+             # several downloads of one block under the real manager (C16's blkmgr stream, a sample): a download that
+             # survives the abort or completion of its request delivers its block later, out of order or a second time
+             Stream("blkmgr", "blkmgr", "drv_blkmgr", gen_mgr, monitor=mon_dl.monitor_mgr, nontrivial=mon_dl.nontrivial_mgr, timeout=900)],
     rule="seeded scripts: start height 0..8, chain tip around the start height (tip = start-1, start, start+1, start+2, genesis only) or up to 40 above, "
          "side branches and reorgs before the round, memory window (prune), processed sets (none, prefix, holes, block below tip, tip, below start), "
          "block-source failure patterns (no node / drop mid-block / wrong block, then delivery), outstanding request + new headers, + reorg (code's own 10 s poll), "
